@@ -71,31 +71,31 @@ type Val struct {
 // ---------------------------------------------------------------- obligations
 
 type Obl struct {
-	Name    string
-	Kind    string // safety.index, safety.nil, safety.div, safety.make, safety.slice, safety.assert, safety.panic, pre, post, inv-init, inv-pres, dec, frame, lemma, table, vacuity
-	Guard   *Term
-	Cond    *Term
-	NFacts  int
-	Pos     token.Pos
-	Desc    string
-	WantSat bool // vacuity: require sat of Guard (Cond ignored)
-	Auto    int  // >0: auto invariant candidate id
+	Name     string
+	Kind     string // safety.index, safety.nil, safety.div, safety.make, safety.slice, safety.assert, safety.panic, pre, post, inv-init, inv-pres, dec, frame, lemma, table, vacuity
+	Guard    *Term
+	Cond     *Term
+	NFacts   int
+	Pos      token.Pos
+	Desc     string
+	WantSat  bool // vacuity: require sat of Guard (Cond ignored)
+	Auto     int  // >0: auto invariant candidate id
 	AutoDesc string
-	RetSt   *State
-	RetVals []*Term
+	RetSt    *State
+	RetVals  []*Term
 	// results
-	Status  string // "unsat","sat","unknown","timeout","error"
-	Solver  string
-	Millis  int64
-	Model   string
-	Output  string
+	Status string // "unsat","sat","unknown","timeout","error"
+	Solver string
+	Millis int64
+	Model  string
+	Output string
 }
 
 type VC struct {
-	eng  *Engine
-	fn   *ssa.Function
-	con  *Contract
-	mode string
+	eng     *Engine
+	fn      *ssa.Function
+	con     *Contract
+	mode    string
 	pkgPath string
 
 	declSeen map[string]bool
@@ -104,36 +104,37 @@ type VC struct {
 	obls     []*Obl
 	nfresh   int
 
-	dataSorts map[string]*Sort
-	dataOrder []*Sort
-	heapSorts map[string]*Sort
-	specUF    map[string]*specUFInfo
+	dataSorts     map[string]*Sort
+	dataOrder     []*Sort
+	heapSorts     map[string]*Sort
+	specUF        map[string]*specUFInfo
 	pendingUnfold []*ufApp
-	unfoldSeen map[string]bool
-	heapTrace map[string]bool
+	unfoldSeen    map[string]bool
+	heapTrace     map[string]bool
 
-	entry   *State
-	params  []*Term // parameter terms of the top function (receiver first)
+	entry     *State
+	params    []*Term // parameter terms of the top function (receiver first)
 	paramVals []*Val
 	strConsts map[string]*Term
-	strList []string
+	strList   []string
 
-	assumed   map[string]bool // names of assumptions / stubs used
-	unmodeled []string        // reasons the function is outside the modelled subset
+	assumed           map[string]bool // names of assumptions / stubs used
+	unmodeled         []string        // reasons the function is outside the modelled subset
 	calleesNoContract map[string]bool
 	calleesContract   map[string]bool
-	inlined   map[string]bool
-	oblCount  map[string]int
-	autoInvs  map[int]*autoInv
-	disabledAuto map[string]bool
-	overflow  bool
-	loopsSeen int
-	lemmaMode bool
-	noAuto    bool
-	nauto     int
-	specErrs  []string
-	usedLemmas []string
-	places    *framePlaces
+	inlined           map[string]bool
+	oblCount          map[string]int
+	autoInvs          map[int]*autoInv
+	disabledAuto      map[string]bool
+	overflow          bool
+	loopsSeen         int
+	lemmaMode         bool
+	noAuto            bool
+	realMul           bool // lemma VCs proved with genuine non-linear multiplication
+	nauto             int
+	specErrs          []string
+	usedLemmas        []string
+	places            *framePlaces
 }
 
 type specUFInfo struct {
@@ -228,8 +229,11 @@ func (vc *VC) oblige(kind string, st *State, cond *Term, pos token.Pos, desc str
 	o := &Obl{Kind: kind, Guard: st.guard, Cond: cond, NFacts: len(vc.facts), Pos: pos, Desc: desc}
 	o.Name = fmt.Sprintf("%s#%s.%d", vc.funcName(), kind, vc.oblCount[kind])
 	vc.obls = append(vc.obls, o)
-	// after checking, the condition may be assumed for the rest of the path
-	vc.assume(st.guard, cond)
+	// after checking, a safety condition may be assumed for the rest of the path (the failure is reported once,
+	// at its first point); end-of-path obligations (post, frame, invariant preservation) are not assumed
+	if strings.HasPrefix(kind, "safety") || kind == "pre" || kind == "inv-init" {
+		vc.assume(st.guard, cond)
+	}
 	return o
 }
 
